@@ -568,3 +568,201 @@ Proof.
     rewrite M1. cbn [app]. rewrite pick1. cbn [bind]. rewrite Ezz, Emult. cbn [bind]. rewrite <- !app_assoc, pick2 by lia. cbn [bind app].
     rewrite M2. rewrite remove1. cbn [bind]. rewrite pick2 by lia. cbn [bind]. unfold some_part. rewrite W by lia. repeat f_equal. lia.
 Qed.
+
+(* ---------- date fields ---------- *)
+Lemma pdp_unfold now c w s : 1 <= w ->
+  parse_date_part now (run c w) s =
+  (let len := w in
+  if c =? 71 then
+    match len with
+    | 1 | 2 | 3 => let? rest := remove_part 2 s in no_part rest
+    | 5 => let? rest := remove_part 1 s in no_part rest
+    | _ => if starts_with BEFORE_CHRIST s then (let? rest := must (remove_part 13 s) in no_part rest)
+           else if starts_with ANNO_DOMINI s then (let? rest := must (remove_part 11 s) in no_part rest)
+           else fmt_err
+    end
+  else if c =? 121 then
+    match len with
+    | 2 => if starts_with [45] s then (let? '(v, rest) := pick_i32 3 s in some_part PYear v rest)
+           else (let? '(v, rest) := pick_i32 2 s in some_part PYear (wrap_i32 (Z.quot now 1000 * 1000 + v)) rest)
+    | 1 | 3 | 4 =>
+        let start := if starts_with [45] s then 1%nat else 0%nat in
+        let ndig := length (fst (take_digits (skipn start s))) in
+        let? '(v, rest) := pick_i32 (Z.of_nat (start + ndig)) s in some_part PYear v rest
+    | _ => let? '(v, rest) := pick_i32 (if starts_with [45] s then len + 1 else len) s in some_part PYear v rest
+    end
+  else if c =? 113 then
+    match len with
+    | 1 | 2 => let? rest := remove_part len s in no_part rest
+    | 3 => let? rest := remove_part 2 s in no_part rest
+    | 4 => match find_prefix QUARTERS s 0 with
+           | Some (_, e) => let? rest := must (remove_part (byte_len e) s) in no_part rest
+           | None => fmt_err end
+    | _ => let? rest := remove_part 1 s in no_part rest
+    end
+  else if c =? 77 then parse_month len s
+  else if c =? 119 then
+    (if len =? 1 then (if nth_is_digit s 1 then (let? rest := must (remove_part 2 s) in no_part rest)
+                       else (let? rest := remove_part 1 s in no_part rest))
+     else (let? rest := remove_part (get_length len 2 2) s in no_part rest))
+  else if c =? 100 then (let? '(v, rest) := pick_1or2 len s in some_part PDayOfMonth v rest)
+  else if c =? 68 then
+    match len with
+    | 2 => let? '(v, rest) := (if nth_is_digit s 2 then pick_u32 3 s else pick_u32 2 s) in some_part PDayOfYear v rest
+    | 3 => let? '(v, rest) := pick_u32 3 s in some_part PDayOfYear v rest
+    | _ => let? '(v, rest) := (if nth_is_digit s 1 then (if nth_is_digit s 2 then pick_u32 3 s else pick_u32 2 s) else pick_u32 1 s) in
+           some_part PDayOfYear v rest
+    end
+  else if c =? 101 then parse_wday len s
+  else (let? rest := remove_part (byte_len (run c w)) s in no_part rest)).
+Proof. intros H. unfold parse_date_part. cbv zeta. rewrite run_first by exact H. rewrite run_len by lia. reflexivity. Qed.
+
+(* y, yyy, yyyy: sign and a run of digits, ended by a character that is not a digit *)
+Lemma year_run_back now w y rest : (w = 1 \/ w = 3 \/ w = 4) -> I32_MIN <= y <= I32_MAX -> nth_is_digit rest 0 = false ->
+  parse_date_part now (run 121 w) (zero_padded_i y w ++ rest) = Ok (Some (PYear, y), rest).
+Proof.
+  intros Hw Hy Hr. rewrite pdp_unfold by lia. cbv zeta. cbn [Z.eqb Pos.eqb].
+  assert (E : forall s, match w with
+    | 2 => if starts_with [45] s then (let? '(v, rest) := pick_i32 3 s in some_part PYear v rest)
+           else (let? '(v, rest) := pick_i32 2 s in some_part PYear (wrap_i32 (Z.quot now 1000 * 1000 + v)) rest)
+    | 1 | 3 | 4 =>
+        let start := if starts_with [45] s then 1%nat else 0%nat in
+        let ndig := length (fst (take_digits (skipn start s))) in
+        let? '(v, rest) := pick_i32 (Z.of_nat (start + ndig)) s in some_part PYear v rest
+    | _ => let? '(v, rest) := pick_i32 (if starts_with [45] s then w + 1 else w) s in some_part PYear v rest
+    end = parse_date_part now [121;121;121;121] s).
+  { intros s. rewrite pdp_y4. destruct Hw as [-> | [-> | ->]]; reflexivity. }
+  rewrite E. clear E.
+  (* same argument as year4_parse, for any padding width *)
+  rewrite pdp_y4. unfold zero_padded_i.
+  assert (P40 : 2147483648 < 10 ^ 40) by (apply Z.ltb_lt; vm_compute; reflexivity).
+  assert (Hb : 0 <= Z.abs y < 10 ^ 40) by (unfold I32_MIN, I32_MAX in Hy; generalize dependent (10 ^ 40); intros; lia).
+  destruct (zero_padded_spec (Z.abs y) w Hb) as (Ad & Ev & Hne). set (zp := zero_padded (Z.abs y) w) in *.
+  destruct zp as [|c tl] eqn:Ez; [congruence|]. rewrite <- Ez in *.
+  assert (Hc : 48 <= c <= 57).
+  { rewrite Ez in Ad. cbn [all_digits forallb] in Ad. apply andb_true_iff in Ad as [Hc _]. unfold is_ascii_digit in Hc. apply andb_true_iff in Hc as [A B]. apply Z.leb_le in A, B. lia. }
+  destruct (Z.ltb_spec y 0) as [Hneg|Hpos].
+  - cbn [app]. assert (S1 : starts_with [45] (45 :: zp ++ rest) = true) by reflexivity. rewrite S1. cbv zeta. cbn [skipn].
+    rewrite (take_digits_app zp rest Ad Hr). cbn [fst]. unfold pick_i32.
+    replace (Z.of_nat (1 + length zp)) with (char_count (45 :: zp)) by (unfold char_count; cbn [length]; lia).
+    change (45 :: zp ++ rest) with ((45 :: zp) ++ rest). rewrite pick_text_app. cbn [bind].
+    unfold parse_signed. cbn [Z.eqb Pos.eqb]. rewrite Ez at 1. rewrite Ad. cbv zeta. rewrite Ev.
+    destruct (Z.leb_spec I32_MIN (- Z.abs y)); [|lia]. cbn [bind]. unfold some_part. repeat f_equal. lia.
+  - cbn [app]. assert (S0 : starts_with [45] (zp ++ rest) = false).
+    { rewrite Ez. unfold starts_with. cbn [length app firstn text_eqb]. destruct (Z.eqb_spec 45 c); [lia | reflexivity]. }
+    rewrite S0. cbv zeta. cbn [skipn]. rewrite (take_digits_app zp rest Ad Hr). cbn [fst Nat.add]. unfold pick_i32.
+    change (Z.of_nat (length zp)) with (char_count zp). rewrite pick_text_app. cbn [bind].
+    unfold parse_signed, parse_unsigned. rewrite Ez. destruct (Z.eqb_spec c 45); [lia|]. destruct (Z.eqb_spec c 43); [lia|]. rewrite <- Ez.
+    unfold all_digits in *. rewrite Ad. cbv zeta. fold (digits_val zp). rewrite Ev.
+    destruct (Z.leb_spec (Z.abs y) I32_MAX); [|lia]. cbn [bind]. unfold some_part. repeat f_equal. lia.
+Qed.
+
+(* yyyyy and longer: fixed width *)
+Lemma year_fixed_back now w y rest : 5 <= w <= 40 -> Z.abs y < 10 ^ w -> I32_MIN <= y <= I32_MAX ->
+  parse_date_part now (run 121 w) (zero_padded_i y w ++ rest) = Ok (Some (PYear, y), rest).
+Proof.
+  intros Hw Hb Hy. rewrite pdp_unfold by lia. cbv zeta. cbn [Z.eqb Pos.eqb].
+  assert (M : forall A B Cc : res (option (punit * Z) * text), match w with 2 => A | 1 | 3 | 4 => B | _ => Cc end = Cc).
+  { intros. destruct w as [|p|p]; try lia. do 3 (try destruct p as [p|p|]); try lia; reflexivity. }
+  rewrite M. clear M. unfold zero_padded_i. set (k := Z.to_nat w). assert (Ek : w = Z.of_nat k) by (subst k; lia).
+  assert (Ez0 : zero_padded (Z.abs y) w = dec k (Z.abs y)) by (clearbody k; subst w; apply zero_padded_dec; lia).
+  rewrite Ez0. clear Ez0.
+  pose proof (dec_digits k (Z.abs y)) as Ad. pose proof (dec_val k (Z.abs y) ltac:(rewrite <- Ek; lia)) as Ev. pose proof (dec_length k (Z.abs y)) as El.
+  set (zp := dec k (Z.abs y)) in *. destruct zp as [|c tl] eqn:Ez; [cbn in El; lia|]. rewrite <- Ez in *.
+  assert (Hc : 48 <= c <= 57).
+  { rewrite Ez in Ad. cbn [all_digits forallb] in Ad. apply andb_true_iff in Ad as [Hc _]. unfold is_ascii_digit in Hc. apply andb_true_iff in Hc as [A B]. apply Z.leb_le in A, B. lia. }
+  destruct (Z.ltb_spec y 0) as [Hneg|Hpos].
+  - cbn [app]. assert (S1 : starts_with [45] (45 :: zp ++ rest) = true) by reflexivity. rewrite S1. unfold pick_i32.
+    replace (w + 1) with (char_count (45 :: zp)) by (unfold char_count; cbn [length]; lia).
+    change (45 :: zp ++ rest) with ((45 :: zp) ++ rest). rewrite pick_text_app. cbn [bind].
+    unfold parse_signed. cbn [Z.eqb Pos.eqb]. rewrite Ez at 1. rewrite Ad. cbv zeta. rewrite Ev.
+    destruct (Z.leb_spec I32_MIN (- Z.abs y)); [|lia]. cbn [bind]. unfold some_part. repeat f_equal. lia.
+  - cbn [app]. assert (S0 : starts_with [45] (zp ++ rest) = false).
+    { rewrite Ez. unfold starts_with. cbn [length app firstn text_eqb]. destruct (Z.eqb_spec 45 c); [lia | reflexivity]. }
+    rewrite S0. unfold pick_i32. replace w with (char_count zp) at 1 by (unfold char_count; lia). rewrite pick_text_app. cbn [bind].
+    unfold parse_signed, parse_unsigned. rewrite Ez. destruct (Z.eqb_spec c 45); [lia|]. destruct (Z.eqb_spec c 43); [lia|]. rewrite <- Ez.
+    unfold all_digits in *. rewrite Ad. cbv zeta. fold (digits_val zp). rewrite Ev.
+    destruct (Z.leb_spec (Z.abs y) I32_MAX); [|lia]. cbn [bind]. unfold some_part. repeat f_equal. lia.
+Qed.
+
+(* M, MM numeric; MMM, MMMM names *)
+Lemma month_num_back now w m rest : (w = 1 \/ w = 2) -> 1 <= m <= 12 -> (w = 1 -> nth_is_digit rest 0 = false) ->
+  parse_date_part now (run 77 w) (zero_padded m w ++ rest) = Ok (Some (PMonth, m), rest).
+Proof.
+  intros Hw Hm Hr. rewrite pdp_unfold by lia. cbv zeta. cbn [Z.eqb Pos.eqb]. unfold parse_month. destruct Hw as [-> | ->].
+  - cbv zeta. destruct (Z.ltb_spec m 10).
+    + destruct (zp1_small m rest ltac:(lia) (Hr eq_refl)) as [A B]. rewrite A, B. reflexivity.
+    + destruct (zp1_big m rest ltac:(lia)) as [A B]. rewrite A, B. reflexivity.
+  - rewrite pick2 by lia. reflexivity.
+Qed.
+Lemma month_name_back now w m rest : (w = 3 \/ w = 4 \/ 5 < w) -> 1 <= m <= 12 ->
+  forall name,
+  nth_name (if w =? 3 then MONTH_ABBREVIATED else MONTH_WIDE) (m - 1) = Ok name ->
+  parse_date_part now (run 77 w) (name ++ rest) = Ok (Some (PMonth, m), rest).
+Proof.
+  intros Hw Hm name Hn. rewrite pdp_unfold by lia. cbv zeta. cbn [Z.eqb Pos.eqb]. unfold parse_month.
+  destruct Hw as [-> | Hw].
+  - cbn [Z.eqb Pos.eqb] in Hn. month_split m Hm; injection Hn as <-; unfold find_prefix, starts_with, MONTH_ABBREVIATED, str; cbn [map length firstn app text_eqb Z.eqb Pos.eqb andb Z.add];
+    match goal with |- context [must (remove_part (byte_len ?e) ?s)] => match goal with |- _ = Ok (_, ?r) => change s with (e ++ r); change (byte_len e) with (Z.of_nat (length e)); rewrite (remove_lit e r) end end; reflexivity.
+  - assert (M : forall A B Cc Dd E : res (option (punit * Z) * text), match w with 1 => A | 2 => B | 3 => Cc | 5 => Dd | _ => E end = E).
+    { intros. destruct w as [|p|p]; try lia. do 3 (try destruct p as [p|p|]); try lia; reflexivity. }
+    rewrite M. assert (E3 : (w =? 3) = false) by (apply Z.eqb_neq; lia). rewrite E3 in Hn.
+    month_split m Hm; injection Hn as <-; unfold find_prefix, starts_with, MONTH_WIDE, str; cbn [map length firstn app text_eqb Z.eqb Pos.eqb andb Z.add];
+    match goal with |- context [must (remove_part (byte_len ?e) ?s)] => match goal with |- _ = Ok (_, ?r) => change s with (e ++ r); change (byte_len e) with (Z.of_nat (length e)); rewrite (remove_lit e r) end end; reflexivity.
+Qed.
+
+(* d, dd *)
+Lemma day_back now w d rest : (w = 1 \/ w = 2) -> 0 <= d < 100 -> (w = 1 -> nth_is_digit rest 0 = false) ->
+  parse_date_part now (run 100 w) (zero_padded d w ++ rest) = Ok (Some (PDayOfMonth, d), rest).
+Proof.
+  intros Hw Hd Hr. rewrite pdp_unfold by lia. cbv zeta. cbn [Z.eqb Pos.eqb]. rewrite (pick_1or2_spec w d rest Hw Hd Hr). reflexivity.
+Qed.
+
+(* D, DD, DDD: day of year 1..366 *)
+Lemma pick3 x rest : 0 <= x < 1000 -> pick_u32 3 (zero_padded x 3 ++ rest) = Ok (x, rest).
+Proof. intros H. apply (pickk 3 x rest); [lia | change (10 ^ Z.of_nat 3) with 1000; lia]. Qed.
+Lemma zp_3digits x w : 100 <= x < 1000 -> 1 <= w <= 3 -> zero_padded x w = zero_padded x 3.
+Proof.
+  intros Hx Hw. unfold zero_padded. cbv zeta. rewrite u_to_string_3 by lia. cbn [length].
+  assert (C : w = 1 \/ w = 2 \/ w = 3) by lia. destruct C as [-> | [-> | ->]]; reflexivity.
+Qed.
+Lemma zp_2digits x w : 10 <= x < 100 -> 1 <= w <= 2 -> zero_padded x w = zero_padded x 2.
+Proof.
+  intros Hx Hw. unfold zero_padded. cbv zeta. rewrite u_to_string_2 by lia. cbn [length].
+  assert (C : w = 1 \/ w = 2) by lia. destruct C as [-> | ->]; reflexivity.
+Qed.
+Lemma nth_digit_zp2 x rest i : 0 <= x < 100 -> (i < 2)%nat -> nth_is_digit (zero_padded x 2 ++ rest) i = true.
+Proof.
+  intros Hx Hi. rewrite zero_padded_2 by lia. unfold nth_is_digit, nth_char. destruct i as [|[|i]]; [| |lia]; cbn [app nth_error]; apply dig_ok; lia.
+Qed.
+Lemma nth_digit_zp3 x rest i : 0 <= x < 1000 -> (i < 3)%nat -> nth_is_digit (zero_padded x 3 ++ rest) i = true.
+Proof.
+  intros Hx Hi. change 3 with (Z.of_nat 3). rewrite (zero_padded_dec x 3) by (change (10 ^ Z.of_nat 3) with 1000; lia). cbn [dec app].
+  unfold nth_is_digit, nth_char. destruct i as [|[|[|i]]]; [| | |lia]; cbn [app nth_error]; apply dig_ok; lia.
+Qed.
+Lemma doy_back now w doy rest : 1 <= w -> 1 <= doy <= 366 -> (w <> 3 -> nth_is_digit rest 0 = false) ->
+  parse_date_part now (run 68 w) (zero_padded doy (get_length w 1 3) ++ rest) = Ok (Some (PDayOfYear, doy), rest).
+Proof.
+  intros Hw Hd Hr. rewrite pdp_unfold by lia. cbv zeta. cbn [Z.eqb Pos.eqb]. unfold get_length.
+  assert (C : w = 2 \/ w = 3 \/ (w <> 2 /\ w <> 3)) by lia. destruct C as [-> | [-> | [N2 N3]]].
+  - (* DD: two or three digits *) cbn [Z.ltb Z.compare Pos.compare Pos.compare_cont]. specialize (Hr ltac:(lia)). destruct (Z.ltb_spec doy 100).
+    + assert (A : nth_is_digit (zero_padded doy 2 ++ rest) 2 = false).
+      { rewrite zero_padded_2 by lia. exact Hr. }
+      rewrite A, pick2 by lia. reflexivity.
+    + rewrite (zp_3digits doy 2) by lia. rewrite nth_digit_zp3 by lia. rewrite pick3 by lia. reflexivity.
+  - cbn [Z.ltb Z.compare Pos.compare Pos.compare_cont]. rewrite pick3 by lia. reflexivity.
+  - (* D (and over-long runs): one, two or three digits *)
+    specialize (Hr N3).
+    assert (M : forall A B Cc : res (option (punit * Z) * text), match w with 2 => A | 3 => B | _ => Cc end = Cc).
+    { intros. destruct w as [|p|p]; try lia. do 2 (try destruct p as [p|p|]); try lia; reflexivity. }
+    rewrite M.
+    assert (Z1 : zero_padded doy (if 3 <? w then 1 else w) = zero_padded doy 1).
+    { destruct (Z.ltb_spec 3 w); [reflexivity|]. assert (w = 1) by lia. subst. reflexivity. }
+    rewrite Z1. assert (C : doy < 10 \/ 10 <= doy < 100 \/ 100 <= doy) by lia. destruct C as [C | [C | C]].
+    + destruct (zp1_small doy rest ltac:(lia) Hr) as [A B]. rewrite A, B. reflexivity.
+    + destruct (zp1_big doy rest C) as [A B]. rewrite A.
+      assert (A2 : nth_is_digit (zero_padded doy 1 ++ rest) 2 = false).
+      { rewrite (zp_2digits doy 1), zero_padded_2 by lia. exact Hr. }
+      rewrite A2, B. reflexivity.
+    + rewrite (zp_3digits doy 1) by lia. rewrite !nth_digit_zp3 by lia. rewrite pick3 by lia. reflexivity.
+Qed.
